@@ -15,6 +15,7 @@ import NiftyVerif.Lemmas.CgClassicExample
 import NiftyVerif.Lemmas.ControllersSqrt
 import NiftyVerif.Lemmas.CgClassicHist
 import NiftyVerif.Lemmas.CgClassicExact
+import NiftyVerif.Lemmas.CgClassicLast
 import NiftyVerif.Lemmas.CgClassicInstances
 import Mathlib.LinearAlgebra.Dimension.Constructions
 
@@ -540,6 +541,30 @@ theorem cg_energy_monotone (S : Sys V K) (hS : S.SPD) (c : Ctrl K τ) (nreset : 
 /-- non-vacuity (concrete evaluation): the energies of the run on `exSys` are 0 > −25/36 > −7/10 -/
 example : (cg exSys (gradNorm (some (1 / 1000)) none 1 (some 10)) 20 100 (QE.at exSys (0, 0))).made.map (·.value)
     = [-25 / 36, -7 / 10] := by
+  decide +kernel
+
+/-- `ConjugateGradient.__call__` never returns CONTINUE: unless the model ran out of fuel (the Python loop would still be
+    running) the returned status is CONVERGED or ERROR.  No hypothesis on the system. -/
+theorem cg_status_final (S : Sys V K) (c : Ctrl K τ) (nreset : Int) (fuel : Nat) (E : QE V K)
+    (h : (cg S c nreset fuel E).reason ≠ .fuel) :
+    (cg S c nreset fuel E).status = .converged ∨ (cg S c nreset fuel E).status = .error :=
+  (cg_last S c nreset fuel E).2 h
+
+/-- On an SPD system the returned position is never worse than the start: `E(x_out) ≤ E(x₀)`, strictly better as soon as
+    the returned energy object is not the start object (at least one step was taken). -/
+theorem cg_result_not_worse (S : Sys V K) (hS : S.SPD) (c : Ctrl K τ) (nreset : Int) (fuel : Nat)
+    (E : QE V K) (hE : E.Consistent S) :
+    trueValue S (cg S c nreset fuel E).energy.pos ≤ trueValue S E.pos ∧
+    ((cg S c nreset fuel E).energy ≠ E → trueValue S (cg S c nreset fuel E).energy.pos < trueValue S E.pos) := by
+  have hm := cg_energy_monotone S hS c nreset fuel E hE
+  have hmem := (cg_last S c nreset fuel E).1
+  rcases List.mem_cons.1 hmem with h | h
+  · exact ⟨by rw [h], fun hne => absurd h hne⟩
+  · have := (List.pairwise_cons.1 hm).1 _ h
+    exact ⟨le_of_lt this, fun _ => this⟩
+
+/-- non-vacuity (concrete evaluation): on `exSys` the run returns CONVERGED, not out of fuel -/
+example : (cg exSys (gradNorm (some (1 / 5)) none 1 (some 10)) 20 100 (QE.at exSys (0, 0))).status = .converged := by
   decide +kernel
 
 /-! ## exact termination -/
